@@ -1,11 +1,12 @@
 import VrlModel.Driver.C18
 
 /-- Line protocol driver: one case per line `op <tab> arg…`, one reply line per case. -/
+def handlers : List (String → List String → Option String) := [
+  Driver.C18.handle
+]
+
 def dispatch (op : String) (args : List String) : String :=
-  let r : Option String :=
-    if op.startsWith "val." || op == "o.c18" then Driver.C18.handle op args
-    else none
-  match r with
+  match handlers.findSome? (fun h => h op args) with
   | some s => s
   | none => "bad-op"
 
